@@ -1,0 +1,40 @@
+//! Read-only accessors used by the external verification harness.
+//!
+//! Compiled only with `RUSTFLAGS="--cfg volute_verif"`; absent from normal builds.
+
+use crate::Lut;
+
+/// The swap and flip sequences that the canonization functions use for this number of variables
+pub fn canon_sequences(num_vars: usize) -> (Vec<u8>, Vec<u8>) {
+    crate::canonization::verif_sequences(num_vars)
+}
+
+/// One application of the successor function to an arbitrary table; returns the new table and
+/// whether it did not roll back to zero
+pub fn next_step(lut: &Lut) -> (Lut, bool) {
+    let mut blocks = lut.blocks().to_vec();
+    let ok = crate::operations::next_inplace(lut.num_vars(), blocks.as_mut_slice());
+    (Lut::from_blocks(lut.num_vars(), blocks.as_slice()), ok)
+}
+
+/// The compiled values of the constant tables
+#[allow(clippy::type_complexity)]
+pub fn const_tables() -> (Vec<u64>, Vec<u64>, Vec<Vec<u64>>, Vec<u64>) {
+    (
+        crate::operations::VAR_MASK.to_vec(),
+        crate::operations::NUM_VARS_MASK.to_vec(),
+        crate::operations::SWAP_INPUT_MASKS
+            .iter()
+            .map(|r| r.to_vec())
+            .collect(),
+        crate::operations::COUNT_MASKS.to_vec(),
+    )
+}
+
+/// Direct access to the slice kernels
+pub mod kernels {
+    pub use crate::bdd::*;
+    pub use crate::canonization::*;
+    pub use crate::decomposition::*;
+    pub use crate::operations::*;
+}
